@@ -211,10 +211,11 @@ structure ImmSizes where
 deriving Repr, DecidableEq
 
 /-- `DownloadNode._calculate_sizes(segment_size)` with `size`, `k` from the verify cap.
-Note `block_size = segment_size // k` (floor) here, `div_ceil` in the encoder. -/
+`block_size = segment_size // k` (floor) here, `div_ceil` in the encoder; the assertion makes them agree. -/
 def calculateSizes (size k segSize : Nat) : Except String ImmSizes :=
-  if segSize = 0 then .error "ZeroDivisionError"
-  else if k = 0 then .error "ZeroDivisionError"
+  if k = 0 then .error "ZeroDivisionError"                 -- segment_size % 0
+  else if segSize % k != 0 then .error "AssertionError"    -- assert segment_size % k == 0
+  else if segSize = 0 then .error "ZeroDivisionError"      -- size % 0
   else
     let tss := tailSizeOf size segSize
     let padded := nextMultiple tss k
